@@ -67,14 +67,37 @@ def validRefill (l : Lfu) (n : Nat) (extras : List (Nat × Int)) : Bool :=
 
 end Lfu
 
-/-- index and hits of the least popular sample entry: first strict minimum, as the Rust loop
+/-- index and hits of the first least popular sample entry: first strict minimum, as the Rust loop
 (`if hits < min_hits`) finds it; `none` for an empty sample -/
-def minEntry (est : Nat → Int) : List (Nat × Int) → Option (Nat × (Nat × Int) × Int)
+def minEntryFirst (est : Nat → Int) : List (Nat × Int) → Option (Nat × (Nat × Int) × Int)
   | [] => none
   | p :: rest =>
-    match minEntry est rest with
+    match minEntryFirst est rest with
     | none => some (0, p, est p.1)
     | some (i, q, h) => if est p.1 ≤ h then some (0, p, est p.1) else some (i + 1, q, h)
+
+/-- numeric code of a sample: the argument under which the popularity oracle answers the tie-break
+question for that sample (index hashes are below 2^64, charges within ±2^63: injective there) -/
+def sampleCode : List (Nat × Int) → Nat
+  | [] => 1
+  | p :: rest => sampleCode rest * 2 ^ 130 + p.1 * 2 ^ 65 + (p.2 + 2 ^ 64).toNat
+
+/-- the index the oracle proposes for this sample. The popularity oracle `est` is one function on `Nat`:
+below 2^64 it is the sketch's estimate of that index hash; at `2^64 + sampleCode s` it says which of the
+equally least popular entries of `s` the implementation takes (property C07 is indifferent to it: a scan
+that keeps the first minimum, the last one, a heap, … are all correct). -/
+def tiePick (est : Nat → Int) (s : List (Nat × Int)) : Nat := (est (2 ^ 64 + sampleCode s)).toNat
+
+/-- index and hits of the least popular sample entry: *a* minimum — the one the tie-break oracle
+proposes if that entry is a minimum, the first one otherwise (the oracle's default answer 0 gives the
+first minimum, which is what the Rust scan `if hits < min_hits` finds); `none` for an empty sample -/
+def minEntry (est : Nat → Int) (s : List (Nat × Int)) : Option (Nat × (Nat × Int) × Int) :=
+  match minEntryFirst est s with
+  | none => none
+  | some (i, q, h) =>
+    match s[tiePick est s]? with
+    | some q' => if est q'.1 = h then some (tiePick est s, q', h) else some (i, q, h)
+    | none => some (i, q, h)
 
 /-- `sample[min_id] = sample[new_len]; sample.drain(new_len..)` -/
 def swapRemove (s : List (Nat × Int)) (i : Nat) : List (Nat × Int) :=
